@@ -14,6 +14,7 @@ PROP = "C10"
 def gen_program(rng):
     macros = {}      # name -> nparams
     values = []      # zero-parameter macros whose body is an expression fragment
+    funcs = []       # one-parameter macros whose body is an expression fragment using the parameter
     counter = [0]
     def fresh(prefix):
         counter[0] += 1
@@ -36,6 +37,11 @@ def gen_program(rng):
         return toks
     def gen_arg(params, depth):
         r = rng.random()
+        if r < 0.06:
+            return []                                     # an empty brace group: the parameter is replaced by nothing
+        if r < 0.16 and funcs:
+            # an argument that itself contains an invocation of a one-parameter macro, with tokens before it
+            return [str(rng.randrange(0, 50)), "+", rng.choice(funcs), str(rng.randrange(0, 50))]
         if r < 0.35:
             return [str(rng.randrange(0, 100))]
         if r < 0.5 and params:
@@ -84,6 +90,10 @@ def gen_program(rng):
         name = fresh("val")
         items.append(('def', name, [], [('frag', [str(rng.randrange(1, 90))])]))
         values.append(name); macros[name] = None
+    for _ in range(rng.randrange(0, 2)):
+        name, par = fresh("fn"), fresh("par")
+        items.append(('def', name, [par], [('frag', ["(", par, "+", str(rng.randrange(1, 9)), ")"])]))
+        funcs.append(name); macros[name] = None
     items += gen_items([], 0, rng.randrange(3, 10))
     r = rng.random()
     if r < 0.25:
